@@ -56,6 +56,9 @@ def step (_ : Unit) (line : String) : Unit × String :=
   -- and must refuse when that part is inconsistent with the other; the model's blocks have exactly one variant
   | ["tamper", "proposed", "EmptyBlockHeader", _] => ((), "rej")
   | ["tamper", "empty", "ProposedHeader", _] => ((), "rej")
+  -- a pair edit: the nil seed together with a proof that does not verify (theorem `unverifiable_proof_rejected`)
+  | ["tamper2", "proposed", "BlockSeed+SeedProof", _] =>
+    ((), verdict (validateBlock ctx (setField (setField hdr .blockSeed 0) .seedProof 77) 2))
   | ["tamper", "proposed", name, op] =>
     match fieldOf name with
     | none => ((), "bad-op")
